@@ -91,7 +91,7 @@ def check_cases(ck, cases, search=True):
     """cases: list of dicts adapter/text/faulty/inv/kind"""
     ops = [{'op': 'c12.parse', 'adapter': c['adapter'], 'text': c['text'], 'faulty': c['faulty'], 'inv': c['inv']}
            for c in cases]
-    answers = ck.model(ops)
+    answers = da.model_parallel(ck, ops)
     bad = []
     for c, ans in zip(cases, answers):
         inp = {'adapter': c['adapter'], 'text': c['text'], 'faulty': c['faulty'], 'inv': c['inv']}
@@ -247,14 +247,14 @@ def run(ck):
     for (a, t) in HAND:
         for faulty in (False, True):
             cases.append({'adapter': a, 'text': t, 'faulty': faulty, 'inv': 3, 'kind': 'hand'})
-    per = 700 if quick else 30000
+    per = 3000 if quick else 100000
     for a in da.ADAPTERS:
         for _ in range(per):
             kind, text = da.gen_text(ck.rng, a)
             cases.append({'adapter': a, 'text': text, 'faulty': ck.rng.random() < 0.35,
                           'inv': ck.rng.choice([1, 1, 2, 3, 7, 100]), 'kind': kind})
-    for i in range(0, len(cases), 4000):
-        check_cases(ck, cases[i:i + 4000])
+    for i in range(0, len(cases), 24000):
+        check_cases(ck, cases[i:i + 24000])
     session_cases(ck)
 
 
